@@ -818,6 +818,10 @@ pub fn form_case_setup(rng: &mut Rng, b1: u8, b2: Option<u8>, f: u8) -> Setup {
     bytes.resize(245, 0);
     bytes[at as usize] = b1;
     let mut pos = at as usize + 1;
+    if b1 < 0xF0 && rng.chance(1, 4) {
+        // operand byte of JR / CALL / ... at a boundary value (target 0, the interrupt vector, wraps)
+        bytes[pos] = *rng.pick(&[0x00u8, 0x00, 0x01, 0x02, 0xFF, 0xFE, 0x80, 0x7F, 0xEF, 0xF0]);
+    }
     if b1 >= 0xF0 {
         let sm = (b1 >> 2) & 3;
         let sr = b1 & 3;
